@@ -168,7 +168,7 @@ func checkC13(c *Ctx) {
 			c.ok("C13.a", key, a.ins.Pos(), "holds "+clientGuard.class+" (instance not resolvable)")
 		case held.hasClass(clientGuard.class) && held["~"+clientGuard.class] != "":
 			c.ok("C13.a", key, a.ins.Pos(), "holds "+clientGuard.class+" (held by every caller)")
-		case isFreshLocal(a.base):
+		case isFreshLocal(a.base) || a.held["~fresh"] != "":
 			c.okTrivial("C13.a", key, a.ins.Pos(), "object under construction, not yet shared")
 		case !a.write && readerOnly(a.fn) && !writesOutsideReader[a.field]:
 			c.ok("C13.a", key, a.ins.Pos(), "unlocked read on the reader goroutine of a field only ever written by the reader goroutine")
